@@ -270,9 +270,10 @@ bool splinetable<Alloc>::read_fits_core_impl(fitsfile* fits, const std::string& 
 				}
 				aux[i] = allocate<char_ptr>(2);
 				aux[i][0] = aux[i][1] = NULL;
+				//fill each string as soon as it exists: clear() measures them
 				aux[i][0] = allocate<char>(keylen);
-				aux[i][1] = allocate<char>(valuelen);
 				std::copy(key,key+keylen,aux[i][0]);
+				aux[i][1] = allocate<char>(valuelen);
 				std::copy(value,value+valuelen,aux[i][1]);
 				i++;
 			}
